@@ -1,0 +1,14 @@
+//go:build verif
+
+package tempfile
+
+// VerifPoint, when set by a simulation harness, is called at the interior points of
+// WriteFileAtomic ("tempfile:created", "tempfile:written", "tempfile:renamed"); it may
+// crash the simulated node. Only compiled with the build tag "verif".
+var VerifPoint func(label string)
+
+func verifPoint(label string) {
+	if VerifPoint != nil {
+		VerifPoint(label)
+	}
+}
